@@ -43,8 +43,8 @@ let hist (fixed : bool) t : string =
     Array.of_list (rep nm (fun () ->
       let s = next t in
       if String.length s <> 4 then failwith "drv_notifier: bad rx4";
-      mkRx (s.[0] = '1') (s.[1] = '1') (s.[2] = '1') (s.[3] = '1'))))) in
-  let unset = mkRx false false false false in
+      { rx_allow_set = (s.[0] = '1'); rx_allow_match = (s.[1] = '1'); rx_deny_set = (s.[2] = '1'); rx_deny_match = (s.[3] = '1') })))) in
+  let unset = { rx_allow_set = false; rx_allow_match = false; rx_deny_set = false; rx_deny_match = false } in
   let mods = List.mapi (fun i (thr, iv, once, close, accg) ->
     let lists (g : z) : rx4 =
       let gi = iz g in if gi >= 0 && gi < nn then table.(gi).(i) else unset in
